@@ -4,6 +4,7 @@ import Dcg.Proofs.SortAction
 import Dcg.Proofs.Repoint
 import Dcg.Proofs.RepointLive
 import Dcg.Proofs.Collapse
+import Dcg.Proofs.ReusePos
 /-
 C11 — no model is lost or duplicated, eager dependencies are defined first, ordering terminates.
 Only property theorems live here; helper lemmas are in Dcg/Proofs/Sort.lean.
@@ -582,5 +583,107 @@ theorem collapse_not_idempotent :
    [⟨0, false, [[]], []⟩, ⟨2, true, [[]], []⟩, ⟨3, true, [], [2]⟩], by decide, by decide, by decide⟩
 
 end Collapse
+
+/-! ### `--reuse-model`: the position bookkeeping in a module with several duplicates of mixed kinds
+
+`Dcg/Model/ReusePos.lean` is `Parser.__reuse_model` with Python's list operations on the LIVE list
+(`for model in models.copy()`, `models.index`, `models.insert`, `models.remove`, duplicate enums collected and
+removed after the loop) for models of three kinds: enums (a duplicate is dropped), plain type aliases (a duplicate
+stays) and everything else (a duplicate is replaced by `class Name(First): pass`). The model is tied to the real
+pass by vlib/props/c11_reusepos.py (the real model list before/after the wrapped pass inside the real parse()). -/
+section ReusePos
+open Dcg.Model.ReusePos Dcg.Proofs.ReusePos
+
+/-- the witness used below: three identical enums, two identical object models, and a class that follows them -/
+def rpWitness : List Item :=
+  [⟨0, .enum, 1, none⟩, ⟨1, .enum, 1, none⟩, ⟨2, .enum, 1, none⟩, ⟨3, .obj, 2, none⟩, ⟨4, .obj, 2, none⟩, ⟨5, .obj, 3, none⟩]
+
+/-- The pass as written — edits of the live list at looked-up positions — never raises on a list of distinct
+model objects and comes to ONE walk over the input that writes, for every model in turn, nothing (a duplicate
+enum), the model itself, or the subclass that replaces it. Any number of duplicates of any kinds in any order. -/
+theorem reusePos_pass_is_one_walk (ms : List Item) (hnd : ms.Nodup) (hpl : PlainItems ms) :
+    pass ms = some (spec ms) := pass_eq_spec ms hnd hpl
+
+example : rpWitness.Nodup ∧ PlainItems rpWitness ∧
+    pass rpWitness = some [⟨0, .enum, 1, none⟩, ⟨3, .obj, 2, none⟩, ⟨4, .obj, 2, some 3⟩, ⟨5, .obj, 3, none⟩] := by decide
+
+/-- The replacement of a duplicate sits at the duplicate's position: with `pre` before the duplicate `m` and
+`post` after it, the result is what the pass makes of `pre`, then `class m(c): pass`, then what it makes of `post`
+— whatever was dropped or replaced in `pre` (k duplicate enums, other duplicates). What stands before the
+replacement comes from `pre` only, what stands after it from `post` only (identities, in their order). -/
+theorem reusePos_replacement_at_position (pre post : List Item) (m : Item) (c : Nat)
+    (hnd : (pre ++ m :: post).Nodup) (hpl : PlainItems (pre ++ m :: post))
+    (hk : m.kind = .obj) (hc : (cacheGo [] pre).lookup m.key = some c) :
+    pass (pre ++ m :: post) = some (spec pre ++ mkSub m c :: specGo (cacheGo [] pre) post)
+    ∧ ((spec pre).map (·.id)).Sublist (pre.map (·.id))
+    ∧ ((specGo (cacheGo [] pre) post).map (·.id)).Sublist (post.map (·.id)) := by
+  refine ⟨?_, specGo_ids_sublist pre [], specGo_ids_sublist post _⟩
+  rw [pass_eq_spec _ hnd hpl, spec, specGo_append]
+  simp only [specGo, img, hc, hk, cacheStep, List.singleton_append, spec]
+
+example : (cacheGo [] (rpWitness.take 4)).lookup (rpWitness[4]!).key = some 3 ∧ (rpWitness[4]!).kind = .obj := by decide
+
+/-- 'base before derived' of the sorted input is preserved: two models that are not enums and stand in the order
+b … d before the pass are both represented after it (by themselves or by their replacement), in the same order. -/
+theorem reusePos_order_preserved (l1 l2 l3 : List Item) (b d : Item)
+    (hnd : (l1 ++ b :: l2 ++ d :: l3).Nodup) (hpl : PlainItems (l1 ++ b :: l2 ++ d :: l3))
+    (hb : b.kind ≠ .enum) (hd : d.kind ≠ .enum) :
+    ∃ o1 b' o2 d' o3, pass (l1 ++ b :: l2 ++ d :: l3) = some (o1 ++ b' :: o2 ++ d' :: o3)
+      ∧ b'.id = b.id ∧ d'.id = d.id := by
+  rw [pass_eq_spec _ hnd hpl, spec]
+  have e : l1 ++ b :: l2 ++ d :: l3 = l1 ++ (b :: (l2 ++ d :: l3)) := by simp
+  rw [e, specGo_append, specGo, specGo_append, specGo]
+  obtain ⟨b', hb1, hb2⟩ := img_of_not_enum (cacheGo [] l1) b hb
+  obtain ⟨d', hd1, hd2⟩ := img_of_not_enum (cacheGo (cacheStep (cacheGo [] l1) b) l2) d hd
+  refine ⟨specGo [] l1, b', specGo (cacheStep (cacheGo [] l1) b) l2, d',
+    specGo (cacheStep (cacheGo (cacheStep (cacheGo [] l1) b) l2) d) l3, ?_, hb2, hd2⟩
+  rw [hb1, hd1]
+  simp
+
+example : ∃ l1 l2 l3 b d, rpWitness = l1 ++ b :: l2 ++ d :: l3 ∧ b.kind ≠ .enum ∧ d.kind ≠ .enum :=
+  ⟨rpWitness.take 4, [], [], rpWitness[4]!, rpWitness[5]!, by decide, by decide, by decide⟩
+
+/-- Nothing is duplicated and nothing changes place: the identities after the pass are a sub-sequence of the
+identities before it (with distinct identities: each at most once, in the input's order). -/
+theorem reusePos_nothing_duplicated (ms out : List Item) (hnd : ms.Nodup) (hpl : PlainItems ms)
+    (h : pass ms = some out) : (out.map (·.id)).Sublist (ms.map (·.id)) := by
+  rw [pass_eq_spec _ hnd hpl] at h
+  cases h
+  exact specGo_ids_sublist ms []
+
+/-- Nothing but a duplicate enum is lost: every model that is not an enum is represented after the pass. -/
+theorem reusePos_only_enums_dropped (ms out : List Item) (hnd : ms.Nodup) (hpl : PlainItems ms)
+    (h : pass ms = some out) (m : Item) (hm : m ∈ ms) (hk : m.kind ≠ .enum) : ∃ x ∈ out, x.id = m.id := by
+  rw [pass_eq_spec _ hnd hpl] at h
+  cases h
+  obtain ⟨l1, l2, rfl⟩ := List.append_of_mem hm
+  obtain ⟨x, hx1, hx2⟩ := img_of_not_enum (cacheGo [] l1) m hk
+  refine ⟨x, ?_, hx2⟩
+  rw [spec, specGo_append, specGo, hx1]
+  simp
+
+example : (rpWitness[4]!) ∈ rpWitness ∧ (rpWitness[4]!).kind ≠ .enum := by decide
+
+/-- The base class of an inserted subclass stands BEFORE it and is a model that the pass left as it was (so
+`class Name(First): pass` never names something undefined or something that was itself replaced). -/
+theorem reusePos_base_of_subclass_is_earlier (ms o1 o2 : List Item) (x : Item) (i : Nat)
+    (hnd : ms.Nodup) (hpl : PlainItems ms) (h : pass ms = some (o1 ++ x :: o2)) (hx : x.sub = some i) :
+    ∃ b ∈ o1, b.id = i ∧ b.sub = none := by
+  rw [pass_eq_spec _ hnd hpl] at h
+  have h' : specGo [] ms = o1 ++ x :: o2 := Option.some.inj h
+  have := specGo_sub_base ms [] [] (by intro k j hl; simp [List.lookup] at hl) hpl o1 x o2 h' i hx
+  simpa using this
+
+example : ∃ o1 x o2 i, pass rpWitness = some (o1 ++ x :: o2) ∧ x.sub = some i :=
+  ⟨[⟨0, .enum, 1, none⟩, ⟨3, .obj, 2, none⟩], ⟨4, .obj, 2, some 3⟩, [⟨5, .obj, 3, none⟩], 3, by decide, rfl⟩
+
+/-- Refuted variant (`passStale`): the position taken from `enumerate(models.copy())` together with removing a
+duplicate enum at once. Each edit alone is harmless; together every enum already removed makes the position stale
+by one: on `rpWitness` the subclass that replaces model 4 is inserted AFTER model 5, which may be its subclass. -/
+theorem reusePos_stale_index_misplaces :
+    (passStale rpWitness).map (·.map (·.id)) = some [0, 3, 5, 4]
+    ∧ (pass rpWitness).map (·.map (·.id)) = some [0, 3, 4, 5] := by decide
+
+end ReusePos
 
 end Dcg.Props.C11
